@@ -157,7 +157,7 @@ func runC15(c *Ctx) {
 		u := g.U
 		host := g.ParamExprs(find)[1]
 		n := 0
-		for _, em := range emissionsOf(find, s, 0) {
+		for _, em := range emissionsG(g, s, 0) {
 			n++
 			key := shortFn(find) + ": emitted rule applies to the hostname and is not excepted"
 			if em.Elems == nil {
@@ -308,8 +308,13 @@ func runC15(c *Ctx) {
 
 		// (b) wildcard list scanned completely
 		okWild := false
-		for _, em := range emissionsOf(find, s, 0) {
-			l := innermostLoop(findLoops, em.Call.Block())
+		for _, em := range emissionsG(g, s, 0) {
+			act := em.Act
+			if act == nil {
+				act = s
+			}
+			// the loop the append runs in: its own, or the one around the call of the helper making it
+			l, lact := loopAround(s, act, em.Call)
 			if l == nil || em.Elems == nil {
 				continue
 			}
@@ -317,7 +322,7 @@ func runC15(c *Ctx) {
 			if ro == nil || !ro.Full || !onlyExhaustionExit(l) {
 				continue
 			}
-			coll := s.Env[ro.Coll]
+			coll := lact.Env[ro.Coll]
 			if coll != nil && coll.Op == "field" && coll.Args[0] == g.ParamExprs(find)[0] && em.Elems[0].Op == "index" && em.Elems[0].Args[0] == coll {
 				c.Extra["wildcard_list_field"] = coll.Aux
 				okWild = true
